@@ -587,10 +587,13 @@ class Pool(Plugin):
         return {"case": self.impl_line(c), "impl_ops": None if o is None else len(o)}
 
     def histogram(self, cases, obss):
-        h = {"ops": {}, "events": {}, "len": {}, "cfg": {}}
+        h = {"ops": {}, "events": {}, "len": {}, "cfg": {}, "issue_uri": {}}
         for c, o in zip(cases, obss):
             for x in c["ops"]:
                 h["ops"][x[0]] = h["ops"].get(x[0], 0) + 1
+                if x[0] == "I":
+                    u = URIS[x[1]] if x[1] < len(URIS) else str(x[1])
+                    h["issue_uri"][u or "(no scheme)"] = h["issue_uri"].get(u or "(no scheme)", 0) + 1
             b = str(10 * (len(c["ops"]) // 10))
             h["len"][b] = h["len"].get(b, 0) + 1
             pool, to, mi, cont = c["cfg"]
